@@ -240,8 +240,11 @@ class Cfg:
 
 class Handler:
     def __init__(self, cfg: Cfg, user: str, owner: str, P: int, id0: bytes, encrypt_metadata: bool = True,
-                 p_unsigned: bool = False, salt: Any = 0):
+                 p_unsigned: bool = False, salt: Any = 0, empty_style: str = "full"):
         self.cfg = cfg
+        # how zero-length strings/streams are written under AES: "full" = IV + one padding block (conforming),
+        # "bare" = nothing at all, "iv-only" = the 16-byte IV without a padding block (both seen from real producers)
+        self.empty_style = empty_style
         self.P = P  # signed 32-bit value
         self.id0 = id0
         self.em = encrypt_metadata
@@ -313,6 +316,8 @@ class Handler:
     def encrypt(self, num: int, gen: int, data: bytes) -> bytes:
         if self.identity:
             return data
+        if self.aes and not data and self.empty_style != "full":
+            return b"" if self.empty_style == "bare" else self._iv(num, gen)
         if self.cfg.cfm == "AESV3":
             iv = self._iv(num, gen)
             return iv + aes_cbc_enc_nopad(self.key, iv, pkcs7(data))
@@ -423,7 +428,7 @@ def enc_value(o: Any, num: int, gen: int, h: Optional[Handler], hexstr: bool, lo
 
 
 def write_pdf(doc: Plain, h: Optional[Handler], layout: str = "table", objstm: Sequence[int] = (), encrypt_indirect: bool = False,
-              hexstr: bool = False, header: bytes = b"%PDF-1.7\n%\xe2\xe3\xcf\xd3\n") -> Tuple[bytes, Dict[str, Any]]:
+              hexstr: bool = False, header: bytes = b"%PDF-1.7\n%\xe2\xe3\xcf\xd3\n", xref_flate: bool = False) -> Tuple[bytes, Dict[str, Any]]:
     """Serialise ``doc`` (encrypted with ``h`` if given).  layout 'table': classic xref + trailer;
     'xrefstm': cross-reference stream, objects listed in ``objstm`` packed (unencrypted inside) into one
     object stream which is encrypted as a whole.  Returns (bytes, info) where info has the numbers of the
@@ -487,7 +492,9 @@ def write_pdf(doc: Plain, h: Optional[Handler], layout: str = "table", objstm: S
     entries[xnum] = (1, len(out), 0)
     entries[0] = (0, 0, 65535)
     info["xref"] = xnum
-    xs = xref_stream_obj(entries, {"Type": N("XRef"), "Size": xnum + 1, **tr}, W=(1, 4, 2))
+    xs = xref_stream_obj(entries, {"Type": N("XRef"), "Size": xnum + 1, **tr}, W=(1, 4, 2), flate=xref_flate)
+    # the cross-reference stream is never encrypted (7.5.8.2): this is what any reader must get back from it
+    info["xref_data"] = zlib.decompress(xs.data) if xref_flate else xs.data
     body = bytes(out)
     return body + b"%d 0 obj\n" % xnum + ser(xs) + b"\nendobj\nstartxref\n%d\n%%%%EOF\n" % len(body), info
 
